@@ -148,6 +148,12 @@ def build(access, scope):
         probe("class_paren", "  class(")
         probe("body", "  zql_var = ")
         probe("body_rest", "  zql_var = ", " + 1")
+        # statements whose first word merely starts like a keyword (endpoint = ..., import_count = ...)
+        lines.insert(len(lines) - 2, "  integer :: endpoint, import_count, enddo_x, contains_x, use_x")
+        for k2 in marks:
+            marks[k2] = (marks[k2][0] + 1, marks[k2][1], marks[k2][2]) if marks[k2][0] >= len(lines) - 3 else marks[k2]
+        for kw in ("endpoint", "import_count", "enddo_x", "contains_x", "use_x"):
+            probe("body_" + kw, f"  {kw} = ")
         probe("call", "  call ")
         if has_ext:
             probe("member", "  zqo_obj%")
@@ -210,7 +216,7 @@ def build(access, scope):
 def expected(ctx, names, access):
     """(required labels, optional labels) for a context; everything else starting with the prefix is forbidden."""
     req, opt = set(), set()
-    if ctx in ("body", "body_rest"):
+    if ctx in ("body", "body_rest") or ctx.startswith("body_"):
         for n, c in names.items():
             if c in ("var", "sub", "fun", "gen", "type"):
                 (req if c != "sub" else opt).add(n)     # subroutine names in an expression: tolerated, not required
